@@ -257,13 +257,24 @@ func c20NamesRun(t *testing.T, tape *simrt.Tape, o simwork.Opts) *simwork.Result
 		// (C) raw payload encoder (one message) -> tracer's decompressor for the name
 		x.guard(tag+" raw message", func() {
 			mc := &conformancev1.MessageContents{Compression: enc.Enum}
+			rawP := p
+			if len(p) == 0 {
+				// present but empty: a nil and a zero-length slice are the same payload
+				// (after a trip through protobuf an empty bytes field is nil)
+				if tape.Bool(1, 2, "names.empty-as-nil") {
+					rawP = nil
+					res.Probes["empty-payload-nil"]++
+				} else {
+					rawP = []byte{}
+				}
+			}
 			switch form {
 			case "binary":
-				mc.Data = &conformancev1.MessageContents_Binary{Binary: p}
+				mc.Data = &conformancev1.MessageContents_Binary{Binary: rawP}
 			case "text":
 				mc.Data = &conformancev1.MessageContents_Text{Text: string(p)}
 			default:
-				mc.Data = &conformancev1.MessageContents_BinaryMessage{BinaryMessage: &anypb.Any{TypeUrl: "type.googleapis.com/connectrpc.conformance.v1.UnaryResponse", Value: p}}
+				mc.Data = &conformancev1.MessageContents_BinaryMessage{BinaryMessage: &anypb.Any{TypeUrl: "type.googleapis.com/connectrpc.conformance.v1.UnaryResponse", Value: rawP}}
 			}
 			var buf bytes.Buffer
 			if err := internal.WriteRawMessageContents(mc, &buf); err != nil {
@@ -276,6 +287,34 @@ func c20NamesRun(t *testing.T, tape *simrt.Tape, o simwork.Opts) *simwork.Result
 			}
 		})
 	}
+
+	// (C') a name that denotes no algorithm in the runner, the peers and the raw
+	// encoders denotes none in the tracer either: whatever is read through it,
+	// nothing comes out as "decoded" (an error or no bytes are both fine)
+	x.guard("foreign name", func() {
+		foreign := []struct{ name, like string }{
+			{"unspecified", ""}, {"UNSPECIFIED", ""}, {"\u017fnappy", "snappy"}, {"z\u017ftd", "zstd"}, {"gz\u0131p", "gzip"},
+			{"x-gzip", "gzip"}, {"gzip ", "gzip"}, {"compress", ""}, {"zlib", "deflate"}, {"lz4", ""}, {"identity2", ""},
+		}
+		f := foreign[tape.Choose(len(foreign), "names.foreign")]
+		x.hash("foreign:" + f.name)
+		data := []byte("payload read through a name that is no encoding name: " + f.name)
+		stream := data
+		for _, enc := range compression.C20Encs {
+			if enc.Name == f.like && !compression.C20Excluded(enc.Name) {
+				if c, err := compression.GetCompressor(enc.Enum); err == nil {
+					if out, err := c20Compress(c, data); err == nil {
+						stream = out
+					}
+				}
+			}
+		}
+		got, _ := x.decode(tracer.GetDecompressor(f.name), stream, false)
+		res.Probes["foreign-encoding-name"]++
+		if len(got) > 0 {
+			x.viol("c20/names/foreign-name", "tracer.GetDecompressor(%q) decoded %d bytes (%q...) although %q is not the name of an encoding anywhere else", f.name, len(got), c20Trunc(got), f.name)
+		}
+	})
 
 	// (D) raw stream encoder with per-item compression
 	nItems := tape.Range(1, 3, "names.items")
@@ -353,4 +392,11 @@ func c20NamesRun(t *testing.T, tape *simrt.Tape, o simwork.Opts) *simwork.Result
 	res.Steps = x.chunks
 	res.Cover = append(res.Cover, fmt.Sprintf("names: stream-items=%d", nItems))
 	return res
+}
+
+func c20Trunc(b []byte) string {
+	if len(b) > 24 {
+		b = b[:24]
+	}
+	return string(b)
 }
